@@ -25,6 +25,8 @@ CONSTANTS
   RelayForwards = TRUE
   HelloCarriesRelays = TRUE
   StrictSettled = FALSE
+  Backpressure = FALSE
+  AnnounceLostAfterFull = FALSE
   D = 2
   Dlo = 1
   Dhi = 3
